@@ -21,7 +21,7 @@ _file_cache = {}
 
 NAME_ALPHABET = 'abcdefghijklmnopqrstuvwxyzABCDEFGHIJKLMNOPQRSTUVWXYZ0123456789 _-.,:;()[]{}+=*/%#@!?~^|'
 RISKY_TOKENS = ['$$$$', '>', '<', '$DTYPE', '$DATUM', '$MFMT', '$RFMT', '$MOL', '$RXN', 'M  END', 'M  V30', '&', '"', "'",
-                '&gt;', ']]>', '<x>', '> <a>', '\\']
+                '&gt;', ']]>', '<x>', '> <a>', '\\', '&amp;', '&quot;', '&#38;', '&lt;', '&amp;gt;', ' $DATUM ', '<![CDATA[', '-->', '%', '`']
 
 
 def _load_file(name, ct=False):
@@ -71,7 +71,7 @@ def gen_text(rng, risky_p, maxlen=24):
 def gen_key(rng, risky_p):
     s = ''.join(rng.choice('abcdefghijklmnopqrstuvwxyzABCDEFGHIJKLMNOPQRSTUVWXYZ0123456789_-.') for _ in range(rng.randrange(1, 12)))
     if rng.random() < risky_p:
-        s = s + rng.choice(['>', '<', ' x', '&', '"', '<>', '$'])
+        s = s + rng.choice(['>', '<', ' x', '&', '"', '<>', '$', '&gt;', '&lt;x', '&amp;', '&quot;q', '&#38;', '&amp;gt;', "'", ' $DATUM', '$DTYPE'])
     return s.strip() or 'k'
 
 
